@@ -1663,7 +1663,12 @@ def c01f(F, R):
                         reads_tgt = any(m.get("k") == "MethodCall" and m["name"] in ("get", "contains_key") and ekey(m["recv"]).lstrip("*&") == tgt and m["args"] and ekey(m["args"][0]).lstrip("*&") == key for m in c)
                         uses_val = val is None or any(m.get("k") == "Path" and m.get("res") == val for m in c)
                         if reads_tgt and uses_val:
-                            guarded = True
+                            # the comparison with the looped value is an equality, in the positive branch
+                            eqs = [b_ for b_ in c if b_.get("k") == "Binary" and b_["op"] in ("Eq", "Ne") and any(m_.get("k") == "MethodCall" and m_["name"] in ("get", "contains_key") and ekey(m_["recv"]).lstrip("*&") == tgt for m_ in walk(b_, pats=False))]
+                            negs = [u_ for u_ in c if u_.get("k") == "Unary" and u_["op"] == "Not"]
+                            in_then = any(z is ins for z in walk(y["then"], pats=False))
+                            if all(b_["op"] == "Eq" for b_ in eqs) and not negs and in_then:
+                                guarded = True
                 if guarded:
                     R.ok(rid, detail=f"{short(q)}: insert into `{tgt}` is conditional on `{tgt}` still holding the looped entry", where=loc(ins))
                 else:
@@ -2628,6 +2633,27 @@ def c03g(F, R):
             R.bad(m, f"ParserNode::{m} is wrong for {wrong[0]} ({len(wrong)} case(s)): returns, exits and function bodies are found with this predicate", sp)
         else:
             R.ok(m, detail=f"{m} evaluated on {len(cases)} kind/operand cases", where=sp)
+    # CfgNode::is_function_entry_with_func: the function whose entry *is* this node
+    fe = inherent_methods(F, CFGNODE).get("is_function_entry_with_func")
+    if fe:
+        g_ = F.fn(fe)
+        cmps = [b_ for b_ in walk(g_["hir"]["value"], pats=False) if b_.get("k") == "Binary" and b_["op"] in ("Eq", "Ne") and mentions_call(b_, "entry")]
+        rets = [c_ for c_ in walk(g_["hir"]["value"], pats=False) if c_.get("k") == "Call" and short(callee_of(c_) or "") == "Some"]
+        okk = len(cmps) == 1 and cmps[0]["op"] == "Eq" and rets and not any(u_.get("k") == "Unary" and u_["op"] == "Not" for u_ in walk(g_["hir"]["value"], pats=False))
+        if okk:
+            from .p_parse import parent_map as _pm2
+            pm2 = _pm2(g_["hir"]["value"])
+            x_ = rets[0]
+            under = False
+            while id(x_) in pm2:
+                x_ = pm2[id(x_)]
+                if x_.get("k") == "If" and any(y is cmps[0] for y in walk(x_["cond"], pats=False)) and any(y is rets[0] for y in walk(x_["then"], pats=False)):
+                    under = True
+            okk = under
+        if okk:
+            R.ok("is_function_entry_with_func", detail="Some(func) exactly when func.entry() == self", where=g_["sp"])
+        else:
+            R.bad("is_function_entry_with_func", "CfgNode::is_function_entry_with_func does not answer `Some(func)` under `func.entry() == self`: lints that start from a function's entry (garbage input values, overlapping functions) start elsewhere or nowhere", g_["sp"])
     # CfgNode::is_part_of_some_function
     cn = inherent_methods(F, CFGNODE).get("is_part_of_some_function")
     if cn:
@@ -2929,6 +2955,38 @@ def c01s(F, R):
             R.bad("unextractable", f"UNEXTRACTABLE: retain predicate of forget_values_reading ({ex})", loc(a))
     if n == 0:
         R.bad("shape", "UNEXTRACTABLE: no arm for values that read a register", loc(m))
+
+
+@rule("C11", "C11.j.interrupt-handler-names-are-call-names", floor=1)
+def c11j(F, R):
+    """the labels installed as interrupt vectors (found by the first stage) are added to the set of call targets of the second stage: `call_names` is the instructions' own call names *extended by* the predefined names - else a handler is no function and its code is attributed to nothing"""
+    cn = [q for q in F.fns if q.endswith("Cfg::new_with_predefined_call_names")]
+    if not cn:
+        raise Anchor("Cfg::new_with_predefined_call_names not found")
+    f = F.fn(cn[0])
+    params = [x.get("name") for x in f["hir"]["params"]]
+    pre = params[1] if len(params) > 1 else None
+    body = f["hir"]["value"]
+    derived = {pre}
+    changed = True
+    while changed:
+        changed = False
+        for n in walk(body, pats=False):
+            if n.get("k") == "If":
+                c = n["cond"]
+                while c.get("k") in ("DropTemps", "Use"):
+                    c = c["e"]
+                if c.get("k") == "LetExpr" and any(x.get("k") == "Path" and x.get("res") in derived for x in walk(c["init"], pats=False)):
+                    for b in walk(c["pat"]):
+                        if b.get("k") == "PBinding" and b["name"] not in derived:
+                            derived.add(b["name"])
+                            changed = True
+    ext = [m for m in walk(body, pats=False) if m.get("k") == "MethodCall" and m["name"] in ("extend", "union", "insert") and any(x.get("k") == "Path" and x.get("res") in derived for a_ in m["args"] for x in walk(a_, pats=False))]
+    lets = [st for st in walk(body, pats=False) if st.get("k") == "Let" and st["pat"].get("k") == "PBinding" and st.get("init") is not None and any(y is e_ for e_ in ext for y in walk(st["init"], pats=False))]
+    if ext and lets and any(mentions_call(st["init"], "call_names") for st in lets):
+        R.ok("extend", detail=f"`{lets[0]['pat']['name']}` = the program's call names extended by the predefined (interrupt handler) names", where=loc(ext[0]))
+    else:
+        R.bad("extend", f"the predefined call names (`{pre}`, the interrupt handlers found by the first stage) are not added to the call names from which function entries are made: a label installed in utvec is no function", f["sp"])
 
 
 @rule("C13", "C13.g.zero-register-operands-fold-as-zero", floor=1)
